@@ -80,6 +80,14 @@ def gen_ext_history(rng, length):
         if rng.chance(60):
             ops.append({"op": "reopen"})
 
+    def pattern_layout_names():
+        # an entity named like a node of the file layout (the project group first of all), then a re-open
+        e = pick(["points", "curve", "surface", "grid2d", "group", "data"])
+        if e is not None and e != g0:
+            ops.append({"op": "rename", "e": e, "v": rng.choice(["GEOSCIENCE", "GEOSCIENCE", "Root", "Types"])})
+            if rng.chance(50):
+                ops.append({"op": "reopen"})
+
     def pattern_cold_update():
         # state assigned in one session is UPDATED as the first thing of the next session, before anything was read back
         # (lazy loaders: the update must act on what the file holds, not on an empty cache)
@@ -95,7 +103,7 @@ def gen_ext_history(rng, length):
                 ops.append({"op": "meta", "e": e, "v": v2 + 1})
 
     patterns = [p for p, c in ((pattern_type_churn, 30), (pattern_unnamed_pgs, 15), (pattern_deferred_save, 25), (pattern_cold_update, 25),
-                                  (pattern_mixed_removal, 25))
+                                  (pattern_mixed_removal, 25), (pattern_layout_names, 30))
                 if rng.chance(c)]
     at = {rng.range(len(ops), max(len(ops), length - 8)): p for p in patterns}
     while len(ops) < length:
@@ -105,8 +113,15 @@ def gen_ext_history(rng, length):
                 break
         w = rng.weighted([("create", 14), ("add_data", 16), ("pg", 12), ("pg_unnamed", 4), ("rm_children", 9), ("rm_ws", 9),
                           ("move", 6), ("copy", 8), ("copy_ws", 4), ("rename", 6), ("values", 7), ("geom", 4), ("listing", 5),
-                          ("reopen", 6), ("meta", 3)])
-        if w == "create":
+                          ("reopen", 6), ("meta", 3), ("bad_add", 5)])
+        if w == "bad_add":
+            # a creation the library refuses with an exception half-way (caught by the caller, who carries on): the file must
+            # stay a valid geoh5 file and the live tree must still equal the re-opened one
+            o = pick(["points", "curve", "surface"])
+            if o is not None:
+                ops.append({"op": "bad_add", "obj": o, "how": rng.weighted([("empty_text", 40), ("too_long", 12), ("ref_bad_map", 12), ("int_overflow", 12), ("bad_assoc", 8), ("bad_type", 8),
+                                                  ("ref_map_str", 8)]), "seed": rng.below(1000)})
+        elif w == "create":
             cls = rng.choice(KINDS)
             p = pick(["group"])
             i = new("group" if cls in ("group",) else "dhgroup" if cls == "dhgroup" else cls)
@@ -145,7 +160,9 @@ def gen_ext_history(rng, length):
         elif w == "rename":
             e = pick(["data", "points", "curve", "surface", "grid2d", "group"])
             if e is not None:
-                ops.append({"op": "rename", "e": e, "v": f"r{rng.below(1000)}"})
+                # mostly fresh names; sometimes a name that also names a node of the file layout (the project group, a container)
+                nm = rng.choice(["GEOSCIENCE", "GEOSCIENCE", "GEOSCIENCE", "Root", "Data", "Types", "Groups", "Objects", "Workspace"]) if rng.chance(18) else f"r{rng.below(1000)}"
+                ops.append({"op": "rename", "e": e, "v": nm})
         elif w == "values":
             e = pick(["data"])
             if e is not None:
@@ -176,6 +193,17 @@ def gen_ext_history(rng, length):
 
 
 # ----------------------------------------------------------------------------- driver
+def _special_floats(R, v):
+    """a third of the float arrays carry values only a float can hold: +-inf, huge, denormal, -0.0 (never the format's no-data
+    code 1.175494351e-38, which legitimately reads back as nan)"""
+    import numpy as np
+
+    if len(v) and R.randint(3) == 0:
+        for _ in range(1 + R.randint(2)):
+            v[R.randint(len(v))] = [np.inf, -np.inf, 1e300, -1e300, 5e-324, 0.1 + 0.2][R.randint(6)]
+    return v
+
+
 def _arr(x):
     import numpy as np
 
@@ -382,7 +410,7 @@ class ExtImpl:
                     v = R.randint(-9, 9, n).astype(float)
                     if n > 1:
                         v[R.randint(n)] = np.nan
-                    spec["values"] = v
+                    spec["values"] = _special_floats(R, v)
                 elif dt == "int":
                     spec["values"] = R.randint(-9, 9, n).astype("int32")
                 elif dt == "text":
@@ -405,6 +433,25 @@ class ExtImpl:
                 d = ob.add_data({f"d{op['id']}": spec})
                 self.uid[op["id"]] = (self.uid[op["obj"]][0], d.uid)
                 info.update(target=d.uid, parents=[ob.uid])
+            elif o == "bad_add":
+                ob = self.ent(op["obj"])
+                if ob is None or not self.in_tree(ob):
+                    return "skipped", info
+                n = ob.n_vertices or 1
+                spec = {"empty_text": {"values": np.array([], dtype=str), "association": "VERTEX", "type": "text"},
+                        "too_long": {"values": np.arange(n + 3).astype(float), "association": "VERTEX"},
+                        "bad_assoc": {"values": np.arange(n).astype(float), "association": "NOWHERE"},
+                        "bad_type": {"values": np.arange(n).astype(float), "type": "no-such-type"},
+                        "ref_bad_map": {"values": np.arange(n).astype("uint32"), "type": "referenced", "value_map": {1.5: "x"}},
+                        "ref_map_str": {"values": np.arange(n).astype("uint32"), "type": "referenced", "value_map": "notadict"},
+                        "int_overflow": {"values": np.array([2**40] * n), "association": "VERTEX", "type": "integer"}}[op["how"]]
+                info.update(target=ob.uid, parents=[ob.uid], may_create=True)
+                try:
+                    ob.add_data({f"bad{op['seed']}": spec})
+                    info["raised"] = None
+                except Exception as e:  # noqa: BLE001  (the refusal itself is not judged here; what it leaves behind is)
+                    info["raised"] = type(e).__name__
+                    del e
             elif o == "pg":
                 ob = self.ent(op["obj"])
                 if ob is None or not self.in_tree(ob):
@@ -507,7 +554,7 @@ class ExtImpl:
                     return "skipped", info
                 n = len(e.values)
                 if e.entity_type.primitive_type.name == "FLOAT":
-                    e.values = R.randint(-9, 9, n).astype(float)
+                    e.values = _special_floats(R, R.randint(-9, 9, n).astype(float))
                 elif e.entity_type.primitive_type.name == "INTEGER":
                     e.values = R.randint(-9, 9, n).astype("int32")
                 else:
@@ -623,6 +670,12 @@ def run_ext_history(ops, work, tag, want_digests=False):
             import traceback
 
             outc, info = f"error:{type(e).__name__}:{str(e)[:160]}", {"tb": traceback.format_exc()[-600:]}
+        if info.get("touch_ws") == [0]:
+            # (default) the workspace the operation addresses = the one its operand lives in: entities copied into the other
+            # workspace are operands too; copies into the other workspace and re-opens set the field themselves
+            k = op.get("obj", op.get("e", op.get("parent")))
+            if k in im.uid:
+                info["touch_ws"] = [im.uid[k][0]]
         info = {k: ([str(x) for x in v] if isinstance(v, list) else (str(v) if k == "target" and v is not None else v)) for k, v in info.items()}
         steps.append({"outcome": outc, "info": info})
         if want_digests:
@@ -634,6 +687,41 @@ def run_ext_history(ops, work, tag, want_digests=False):
         os.remove(p)
     return {"ext": True, "steps": steps, "validations": im.validations, "final_validation": final_validation,
             "reopen_diffs": im.reopen_diffs, "meta_diffs": im.meta_diffs, "digests": dig if want_digests else None, "roots": roots}
+
+
+def oracle_ext_frame(case, obs):
+    """C09 on the extended histories: between the digests taken before and after an operation, an EXISTING node (present in
+    both) may differ only if it is the operation's target or one of the parents it leaves / joins; nodes may appear (nodes it
+    creates, types it introduces) or disappear (nodes it deletes, types it stops using); the project header never changes; a
+    file the operation does not address stays identical.  Listing getters and close + open are judged elsewhere (sweeps of
+    dead nodes: recorded findings of C02)."""
+    fails = []
+    dig = obs.get("digests")
+    if not dig:
+        return fails
+    for i, (op, st) in enumerate(zip(case["ops"], obs["steps"])):
+        if st["outcome"] != "done" or op["op"] in ("reopen", "listing") or i + 1 >= len(dig):
+            continue
+        info = st["info"]
+        touch = {int(x) for x in (info.get("touch_ws") or [0])}
+        if op["op"] == "copy" and op.get("other_ws"):
+            touch = {1}
+        own = {str(info.get("target"))} | {str(x) for x in (info.get("parents") or [])}
+        for fi in (0, 1):
+            before, after = dig[i][fi], dig[i + 1][fi]
+            mod = sorted(p for p in set(before) & set(after) if before[p] != after[p])
+            new_or_gone = sorted(p for p in set(before) ^ set(after))
+            if fi not in touch:
+                if mod or new_or_gone:
+                    fails.append({"key": "ext-other-file-changed", "what": f"op {i} {op} addresses workspace {sorted(touch)}; file {fi} changed: {(mod + new_or_gone)[:4]}"})
+                    return fails
+                continue
+            bad = [p for p in mod if p == "header" or not any(("{%s}" % u) in p for u in own)]
+            if bad:
+                fails.append({"key": "ext-header-changed" if "header" in bad else "ext-collateral-change",
+                              "what": f"op {i} {op} (target {info.get('target')}, parents {info.get('parents')}) modified in file {fi}: {bad[:4]}"})
+                return fails
+    return fails
 
 
 # ============================================================================= drillhole-group histories (C09 oracle stream)
